@@ -384,9 +384,9 @@ Proof.
             try contradiction].
   - (* slice, no end *)
     destruct stop; [discriminate Hk|]. injection H as <-.
-    apply in_app_or in Hin as [Hin|Hin].
+    destruct Hin as [Hin|Hin].
+    + injection Hin as <-. reflexivity.
     + destruct (_ && _); cbn in Hin; intuition discriminate.
-    + cbn in Hin. destruct Hin as [Hin|[]]. injection Hin as <-. reflexivity.
   - (* partition_unique *)
     destruct (if keep_last then _ else _) as [pre kd] eqn:Epre.
     assert (Hpre : ~ In (ASet st) pre).
